@@ -407,6 +407,21 @@ func (c14Checker) Run(tp *Tapes, opt RunOpt) *Outcome {
 					}
 				}
 			}
+			// endurance: many failed writes on one set must not wear it out
+			if tp.Fault.Draw(12) == 0 && refOut != "" {
+				for n := 0; n < 130; n++ {
+					on(EpExecuteWriter, []FaultSpec{{Site: KWrite, Task: -1, Occ: 0, Fault: FWriteEIO, Disk: -1}})
+				}
+				lastCase = &c14Case{Entry: "same set and template after 130 executions whose writer failed"}
+				var rs []*ExecResult
+				for _, ep := range eps {
+					rs = append(rs, on(ep, nil))
+				}
+				out.probe("endurance_writer_failures")
+				if agree(rs, "after 130 failed writes") && !rs[0].Failed() && visible(rs[0]) != refOut {
+					viol("variants_disagree", "after 130 failed writes bytes", "after many executions whose writer failed the template renders something else", refOut, obs(rs))
+				}
+			}
 			// the same template with a nil Context, before and after the caller changes a global
 			onNil := func(ep int) *ExecResult {
 				w.Plan = nil
